@@ -42,27 +42,49 @@ def check(ctx: Ctx) -> None:
     for p in ('vtChannels', 'noiseVar', 'Es'):
         if p not in fn.params:
             ctx.error('C12: parameter %s of doWF vanished' % p)
-    ctx.rule('C12.a', 'Es weights every noise/gain quotient in doWF', floor=5)
+    ctx.rule('C12.a', 'every noise/gain quotient of doWF is noiseVar / (Es * gain): Es enters exactly once (term normal forms)', floor=5)
+    from .. import terms as T
     gains = {'vtChannels'}
     for n in walk_no_nested(fn.node):
         if isinstance(n, ast.Assign) and len(n.targets) == 1 and isinstance(n.targets[0], ast.Name) \
                 and isinstance(n.value, ast.Subscript) and names_in(n.value.value) & gains:
             gains.add(n.targets[0].id)
+    env = T.Env(M, fn)
+    env.vars.update({k: v for k, v in T.local_terms(M, fn).items() if k not in gains})
+
+    def is_gain(a) -> bool:
+        return a[0] == 'sym' and a[1].split('[')[0] in gains
+
     i = 0
     for n in walk_no_nested(fn.node):
-        if isinstance(n, ast.BinOp) and isinstance(n.op, ast.Div):
-            num, den = names_in(n.left), names_in(n.right)
-            if 'noiseVar' in num and den & gains:
+        if not (isinstance(n, ast.BinOp) and isinstance(n.op, ast.Div)):
+            continue
+        try:
+            t = T.from_ast(n, env)
+        except T.Unknown:
+            continue
+        for m, c in t.terms:
+            exps = {}
+            for a, e in m:
+                if a == ('sym', 'noiseVar'):
+                    exps['noise'] = exps.get('noise', 0) + e
+                elif a == ('sym', 'Es'):
+                    exps['Es'] = exps.get('Es', 0) + e
+                elif is_gain(a):
+                    exps['gain'] = exps.get('gain', 0) + e
+            if exps.get('noise', 0) > 0 and exps.get('gain', 0) < 0:
                 i += 1
                 stmt = _enclosing_target(fn, n)
                 construct = 'doWF:%s#%d' % (stmt, i)
                 ctx.instance('C12.a', construct)
-                ok = 'Es' in den
-                ctx.obligation('C12.a', construct, ok, {'quotient': norm(n)[:90]})
+                ok = exps.get('noise') == 1 and exps.get('gain') == -1 and exps.get('Es', 0) == -1
+                ctx.obligation('C12.a', construct, ok, {'quotient': norm(n)[:80], 'normal_form': t.pretty()[:120],
+                                                        'exponents': {k: str(v) for k, v in exps.items()}})
                 if not ok:
-                    ctx.violation('C12.a', 'doWF', 'the quotient `%s` (defining `%s`) divides the noise by a channel gain without '
-                                  'the symbol energy Es: for Es != 1 this quantity is inconsistent with the allocation, which uses '
-                                  'noise/(Es*gain)' % (norm(n)[:80], stmt), fn.path, n.lineno, operand=stmt)
+                    ctx.violation('C12.a', 'doWF', 'the quotient `%s` (defining `%s`) normalises to `%s`: the symbol energy enters with '
+                                  'exponent %s instead of -1, so this quantity is inconsistent with noise/(Es*gain)'
+                                  % (norm(n)[:70], stmt, t.pretty()[:90], exps.get('Es', 0)), fn.path, n.lineno, operand=stmt)
+    _check_level(ctx, fn)
     # ------------------------------------------------------------------ C12.b
     ctx.rule('C12.b', 'the allocation is scattered back with the argsort index that sorted the gains', floor=1)
     ctx.instance('C12.b', 'doWF:unsort')
@@ -94,6 +116,50 @@ def check(ctx: Ctx) -> None:
                       'gains (%s): the powers come back in the wrong channel order' % detail, fn.path, fn.lineno, operand='unsort')
 
 
+def _check_level(ctx: Ctx, fn: FuncInfo) -> None:
+    ctx.rule('C12.c', 'the returned water level is computed from the strongest channel (index 0 of the descending-sorted vectors)', floor=1)
+    ctx.instance('C12.c', 'doWF:mu')
+    rets = [n for n in walk_no_nested(fn.node) if isinstance(n, ast.Return) and isinstance(n.value, ast.Tuple) and len(n.value.elts) == 2]
+    if len(rets) != 1 or not isinstance(rets[0].value.elts[1], ast.Name):
+        ctx.error('C12.c: doWF no longer returns (allocation, level) as two locals')
+    out_name, mu = norm(rets[0].value.elts[0]), rets[0].value.elts[1].id
+    defs = [n for n in walk_no_nested(fn.node) if isinstance(n, ast.Assign) and any(isinstance(t, ast.Name) and t.id == mu for t in n.targets)]
+    if len(defs) != 1:
+        ctx.error('C12.c: the level %s is defined %d times' % (mu, len(defs)))
+    sorted_gain = None
+    idxname = None
+    for n in walk_no_nested(fn.node):
+        if isinstance(n, ast.Assign) and isinstance(n.targets[0], ast.Name) and 'argsort' in norm(n.value) and norm(n.value).endswith('[::-1]'):
+            idxname = n.targets[0].id
+    for n in walk_no_nested(fn.node):
+        if isinstance(n, ast.Assign) and isinstance(n.targets[0], ast.Name) and isinstance(n.value, ast.Subscript) \
+                and norm(n.value.value) == 'vtChannels' and norm(n.value.slice) == idxname:
+            sorted_gain = n.targets[0].id
+    # expand single-assignment locals used in the definition (e.g. a precomputed noise floor)
+    loc1 = {}
+    for n in walk_no_nested(fn.node):
+        if isinstance(n, ast.Assign) and len(n.targets) == 1 and isinstance(n.targets[0], ast.Name):
+            loc1.setdefault(n.targets[0].id, []).append(n.value)
+    exprs = [defs[0].value]
+    for x in ast.walk(defs[0].value):
+        if isinstance(x, ast.Name) and len(loc1.get(x.id, [])) == 1 and x.id not in (sorted_gain, idxname):
+            exprs.append(loc1[x.id][0])
+    subs = [(norm(x.value), norm(x.slice)) for e_ in exprs for x in ast.walk(e_) if isinstance(x, ast.Subscript)]
+    caller_order = [s_ for s_ in subs if s_[0] in ('vtChannels', out_name)]
+    strongest = [s_ for s_ in subs if s_[0] == sorted_gain and s_[1] == '0']
+    if caller_order:
+        ok = False
+        why = 'it indexes the caller-order vectors %s: that channel may be switched off (zero power), in which case the formula ' \
+              'P + N/(Es g) is not the water level' % [s_[0] + '[' + s_[1] + ']' for s_ in caller_order]
+    elif strongest and all(s_[1] == '0' for s_ in subs):
+        ok, why = True, ''
+    else:
+        ctx.error('C12.c: the level is computed from %s (cannot tell whether that channel is always active)' % subs)
+    ctx.obligation('C12.c', 'doWF:mu', ok, {'definition': norm(defs[0])[:100], 'subscripts': subs})
+    if not ok:
+        ctx.violation('C12.c', 'doWF', 'the returned water level `%s`: %s' % (norm(defs[0])[:80], why), fn.path, defs[0].lineno, operand='level')
+
+
 def _enclosing_target(fn: FuncInfo, node: ast.AST) -> str:
     for s in walk_no_nested(fn.node):
         if isinstance(s, ast.Assign) and any(x is node for x in ast.walk(s.value)):
@@ -114,6 +180,15 @@ MUTANTS = [
                                                    r'minMu = float(noiseVar) / \1')], r'C12\.a:doWF:minMu'),
     Mutant('scatter-with-fresh-argsort', WF, 'doWF', [('replace', 'vtOptP[vtChannelsSortIndexes[', 'vtOptP[np.argsort(vtChannels)[')],
            r'C12\.b:doWF:unsort'),
+    Mutant('Es-applied-twice-in-loop', WF, 'doWF',
+           [('regex', r'(    minMu = float\(noiseVar\) / \(Es \* vtChannelsSorted\[dNChannels - dRemoveChannels - 1\]\)\n)', r'    dNoise = float(noiseVar) / Es\n\1'),
+            ('regex', r'(while .*?Ps = minMu - )float\(noiseVar\)( / \(Es \* vtChannelsSorted)', r'\1dNoise\2')], r'C12\.a:doWF:Ps'),
+    Mutant('level-from-caller-order-channel-0', WF, 'doWF',
+           [('regex', r'mu = vtOptPaux\[0\] \+ float\(noiseVar\) / \(Es \* vtChannelsSorted\[0\]\)', 'mu = vtOptP[0] + float(noiseVar) / (Es * vtChannels[0])')],
+           r'C12\.c:doWF:level'),
+    Mutant('benign-hoist-noise-over-Es', WF, 'doWF',
+           [('regex', r'mu = vtOptPaux\[0\] \+ float\(noiseVar\) / \(Es \* vtChannelsSorted\[0\]\)',
+             'nz = float(noiseVar) / Es\n    mu = vtOptPaux[0] + nz / vtChannelsSorted[0]')], None, benign=True),
     Mutant('benign-precompute-floor', WF, 'doWF',
            [('regex', r'mu = vtOptPaux\[0\] \+ float\(noiseVar\) / \(Es \* vtChannelsSorted\[0\]\)',
              'floor0 = float(noiseVar) / (Es * vtChannelsSorted[0])\n    mu = vtOptPaux[0] + floor0')], None, benign=True),
